@@ -173,12 +173,22 @@ def relay_side(ctx):
   mcs = [dict(nd=1, maxq=2, mpm=5, flow=True, dynamic=False), dict(nd=2, maxq=2, mpm=2, flow=True, dynamic=False)]
   if not ctx.quick:
     mcs += [dict(nd=2, maxq=2, mpm=5, flow=True, dynamic=True), dict(nd=1, maxq=3, mpm=1, flow=True, dynamic=True)]
+  # one-datapoint batches with the dynamic router: a full queue can be emptied by the removal of its destination (F18)
+  mcs.append(dict(nd=2, maxq=2, mpm=1, flow=True, dynamic=True))
   for i, c in enumerate(mcs):
     rm.configure(dict(c, nr=1))
     consts = relaycheck.consts_for(rm, ctx.pick(4, 5), ctx.pick(3, 4))
-    res = relaycheck.model_check(ctx, 'Relay-flow#%d' % i, consts, ['TypeOK', 'NoStuck'])
+    res = relaycheck.model_check(ctx, 'Relay-flow#%d' % i, consts, ['TypeOK', 'NoStuck'], timeout=2400)
     if res.violated:
       raise Machinery('Relay.tla violates %s: %s' % (res.violated, [a for a, _ in res.cex]))
+  # the repaired defect F18 stays reachable in the model of the unrepaired removal (documentation of the witness)
+  rm.configure(dict(nd=2, maxq=2, mpm=1, flow=True, dynamic=True, nr=1))
+  consts = relaycheck.consts_for(rm, 4, 3, removal_releases=False)
+  cfgt = tlc.cfg_text(spec='Spec', constants=consts, invariants=['NoStuck'], constraints=['Bound'])
+  res = tlc.check_ok(tlc.run('Relay', cfgt, ctx.scratch, timeout=900), 'F18 witness')
+  ctx.cov['F18_model_witness'] = [a for a, _ in res.cex]
+  if res.violated != 'NoStuck':
+    raise Machinery('Relay.tla with RemovalReleases = FALSE no longer shows F18')
   cfgs = [dict(nd=1, maxq=2, mpm=5, flow=True, dynamic=False, nr=2),
           dict(nd=1, maxq=1, mpm=1, flow=True, dynamic=False, nr=1, protocol='line'),        # low watermark 0.8 of one datapoint; plaintext client
           dict(nd=1, maxq=3, mpm=2, flow=True, dynamic=True, max_retries=1, nr=2),    # the only destination comes and goes
